@@ -101,6 +101,17 @@ fn check_roundtrip(ctx: &Ctx, civ: &Civil, inst: i64, loc: &mut Local) {
       if back != Some(inst) {
         ctx.violation("roundtrip", fmt_inst(civ, inst), format!("instant -> JD {} -> {}", jd, back.map(|b| fmt_inst(civ, b)).unwrap_or("invalid".into())), rp.clone());
       }
+      // the Julian date of the instant stepped by whole days is the Julian date of the instant that many days later
+      for k in [0i64, 1, -1, -366] {
+        let t = inst + 86400 * k;
+        if t < 86400 || t >= (civ.len() as i64 - 1) * 86400 {
+          continue;
+        }
+        let got = guard(|| inst_of(civ, &mk_time(civ, inst).get_julian_day().next(k as isize).get_solar_time()));
+        if got != Ok(Some(t)) {
+          ctx.violation("roundtrip", format!("{} JD.next({})", fmt_inst(civ, inst), k), format!("get_julian_day().next({}).get_solar_time() = {:?}; model {}", k, got.map(|g| g.map(|x| fmt_inst(civ, x))), fmt_inst(civ, t)), rp.clone());
+        }
+      }
       if day != Some(inst / 86400) {
         ctx.violation("roundtrip", fmt_inst(civ, inst), format!("JulianDay::get_solar_day gives day ordinal {:?}, model {}", day, inst / 86400), rp);
       }
